@@ -242,15 +242,22 @@ def c11(m, run):
 def c15(m, run):
     smax = 40 if run.tier == 'thorough' else 13
 
+    cells = []
+
     def tslfunc(sk, node, v1, v2, v3, v4, vidx, tidx, trims, targs):
+        cells.append((v1, v2, v3, v4))
         t1, t2 = Bag('Triangle', data=[v1._a['id'], v2._a['id'], v3._a['id']]), Bag('Triangle', data=[v1._a['id'], v3._a['id'], v4._a['id']])
         return [], [t1, t2]
 
     def mk(cls):
         def f(sk, node, *a, **k):
-            b = Bag(cls, id=0, data=[Tok('PH0')] * 3, uv=[Tok('PH0')] * 2, vertices=[])
+            b = Bag(cls, id=k.get('id', 0), data=list(a) if a else [Tok('PH0')] * 3, uv=[Tok('PH0')] * 2, vertices=[])
             return b
         return f
+
+    def lab(v):
+        f = footprint(v._a['data']) if isinstance(v._a.get('data'), (list, tuple)) else None
+        return next(iter(f)) if f and len(f) == 1 else None
     extra = {('class', ('elements', 'Vertex')): mk('Vertex'), ('class', ('elements', 'Triangle')): mk('Triangle'), ('class', ('elements', 'Quad')): mk('Quad')}
     t = Tally(run, 'SK1.index-safety', '_tessellate.make_triangle_mesh', 'sample sizes 2..%d (square and non-square) x every spacing dividing size-1' % smax)
     for size in range(2, smax + 1):
@@ -261,7 +268,31 @@ def c15(m, run):
                     nu, nv = len(range(0, su, sp)), len(range(0, sv, sp))
                     if len(verts) != nu * nv:
                         raise Violation('SK3', 'mesh has %d vertices, the strided grid has %d x %d' % (len(verts), nu, nv))
-                t.add((su, sv, sp), run1(m, '_tessellate.make_triangle_mesh', [pts(su * sv, 3), su, sv],
+                    # MSH2: vertex k = (a, b) of the strided grid carries point (a*sp, b*sp) of the input grid and its own parametric position
+                    for k, v in enumerate(verts):
+                        a, b = divmod(k, nv)
+                        want = b * sp + a * sp * sv
+                        if lab(v) != want:
+                            raise Violation('MSH2', 'vertex %d (grid position %d, %d with spacing %d) carries input point %r, expected point %d = v + u * size_v' % (k, a, b, sp, lab(v), want))
+                        uv = v._a.get('uv')
+                        wuv = [a * sp / float(su - 1), b * sp / float(sv - 1)]
+                        if not isinstance(uv, (list, tuple)) or len(uv) != 2 or not all(isinstance(x, float) for x in uv):
+                            raise Violation('MSH2', 'vertex %d has parametric position %r' % (k, uv))
+                        if any(abs(x - y) > 1e-9 for x, y in zip(uv, wuv)):
+                            raise Violation('MSH2', 'vertex %d carries input point (%d, %d) of a %d x %d grid but the parametric position (%.4f, %.4f); that point was evaluated at (%.4f, %.4f)'
+                                            % (k, a * sp, b * sp, su, sv, uv[0], uv[1], wuv[0], wuv[1]))
+                        if v._a.get('id') != k:
+                            raise Violation('MSH2', 'vertex %d of the final list has id %r' % (k, v._a.get('id')))
+                    # every cell of the strided grid once, corners (a, b), (a+1, b), (a+1, b+1), (a, b+1)
+                    P = lambda a, b: b * sp + a * sp * sv
+                    got = [tuple(lab(x) for x in c) for c in cells]
+                    wantc = [(P(a, b), P(a + 1, b), P(a + 1, b + 1), P(a, b + 1)) for a in range(nu - 1) for b in range(nv - 1)]
+                    if sorted(got) != sorted(wantc):
+                        bad = next((g for g in got if g not in wantc), None)
+                        raise Violation('MSH2', 'the tessellation function is handed the corner points %r; every cell (a, b) of the %d x %d vertex grid is handed once as '
+                                        '(a, b), (a+1, b), (a+1, b+1), (a, b+1)' % (bad if bad else 'of %d cells instead of %d' % (len(got), len(wantc)), nu, nv))
+                del cells[:]
+                t.add((su, sv, sp), run1(m, '_tessellate.make_triangle_mesh', [pts(su * sv, 3, labelled=True), su, sv],
                                          {'vertex_spacing': sp, 'tessellate_func': Py(tslfunc, 'tsl')}, post, extra))
     finish(t, 'geomdl/_tessellate.py in _tessellate.make_triangle_mesh')
     # a tessellation function may hand grid vertices back in its vertex list (the shipped trimming tessellator does): the final vertex
@@ -1430,3 +1461,109 @@ def tr3(m, run):
         except Unsupported as ex:
             raise AnalysisError('%s: interpreter met an unsupported construct: %s' % (key, ex))
         run.ob('TR3.transform-is-exact-map', key, why is None, 'every coordinate becomes ' + doc if why is None else why, 'geomdl/operations.py:%d in %s' % (fi.node.lineno, fi.key))
+
+
+# ====================================================================================== C15: mesh exporters in text mode
+def _mesh_container(counts, faces):
+    """abstract surface container: surface s has counts[s] vertices (coordinates and parameters are labelled tokens) and the triangles
+    faces[s] (local vertex ids)"""
+    def L(name):
+        return Tok('DEF', dep=frozenset([name]))
+    surfs = []
+    for s, n in enumerate(counts):
+        verts = []
+        for k in range(n):
+            d = [L('p%d_%d_%d' % (s, k, c)) for c in range(3)]
+            verts.append(Bag('Vertex', id=k, data=d, x=d[0], y=d[1], z=d[2], uv=[L('uv%d_%d_%d' % (s, k, c)) for c in range(2)], u=None, v=None))
+        tris = []
+        for t, ids in enumerate(faces[s]):
+            tris.append(Bag('Triangle', id=t, data=list(ids), vertices=[verts[i] for i in ids], vertex_ids=list(ids), _lab='n%d_%d' % (s, t)))
+        srf = Bag('rec:surface', pdimension=2, sample_size_u=3, sample_size_v=3, dimension=3)
+        srf._a['tessellator'] = Bag('rec:tessellator', vertices=verts, faces=tris)
+        srf._a['tessellate'] = Py(lambda sk, node, *a, **k: None, 'tessellate')
+        srf._a['__iter__'] = [srf]
+        surfs.append(srf)
+    cont = Bag('rec:container', pdimension=2, sample_size_u=5, sample_size_v=5, dimension=3)
+    cont._a['__iter__'] = surfs
+    return cont, surfs
+
+
+def mx2(m, run):
+    """MX2: export_obj_str / export_off_str / export_stl_str (ASCII) interpreted in text mode on an abstract container of three surfaces with
+    different vertex counts: the text is parsed back and must list every vertex once in surface order, refer from every face to the
+    vertices of its own surface (local id + number of vertices of the earlier surfaces, + 1 for OBJ) and, for OFF, declare the counts of
+    the records that follow"""
+    counts = [4, 3, 5]
+    faces = [[(0, 1, 2), (0, 2, 3)], [(0, 1, 2)], [(0, 1, 4), (1, 2, 3), (4, 3, 2)]]
+    offs = [0, 4, 7]
+    ab = dict(STD_ABSTRACTED)
+    ab[('linalg', 'triangle_normal')] = Py(lambda sk, node, t, *a, **k: [Tok('DEF', dep=frozenset(['%s_%d' % (t._a['_lab'], c)])) for c in range(3)], 'triangle_normal')
+    want_v = ['<p%d_%d_0> <p%d_%d_1> <p%d_%d_2>' % (s, k, s, k, s, k) for s in range(3) for k in range(counts[s])]
+    want_vp = ['<uv%d_%d_0> <uv%d_%d_1>' % (s, k, s, k) for s in range(3) for k in range(counts[s])]
+
+    def want_f(base):
+        return [' '.join(str(i + offs[s] + base) for i in ids) for s in range(3) for ids in faces[s]]
+
+    def run_one(name, kw):
+        cont, surfs = _mesh_container(counts, faces)
+        sk = SK(m, ab)
+        sk.text = True
+        out = sk.call(m.func('exchange.' + name), [cont], dict(kw))
+        if not isinstance(out, str):
+            raise Violation('MX2', 'returns %r, not text' % (type(out).__name__,))
+        return [l for l in out.split('\n')], surfs
+
+    def first_diff(kind, got, want):
+        if len(got) != len(want):
+            return '%d %s records, expected %d' % (len(got), kind, len(want))
+        for k, (a, b) in enumerate(zip(got, want)):
+            if a != b:
+                return '%s record %d is `%s`, expected `%s`' % (kind, k, a, b)
+        return None
+
+    for name, kw, fmt in (('export_obj_str', {'parametric_vertices': True}, 'obj'), ('export_off_str', {}, 'off'), ('export_stl_str', {'binary': False}, 'stl')):
+        key = 'exchange.%s :: container of three surfaces with %s vertices' % (name, counts)
+        why = None
+        try:
+            lines, surfs = run_one(name, kw)
+            if fmt == 'obj':
+                v = [l[2:] for l in lines if l.startswith('v ')]
+                vp = [l[3:] for l in lines if l.startswith('vp ')]
+                f = [l[2:] for l in lines if l.startswith('f ')]
+                why = first_diff('vertex', v, want_v) or first_diff('parameter-space vertex', vp, want_vp) or first_diff('face', f, want_f(1))
+                if why and 'face' in why:
+                    why += ' (1-based index of the vertex line of the same surface: local id + 1 + vertices of the earlier surfaces)'
+            elif fmt == 'off':
+                nv, nf = sum(counts), sum(len(x) for x in faces)
+                body = [l for l in lines[2:] if l != '']
+                if lines[0] != 'OFF':
+                    why = 'first line is `%s`, expected OFF' % lines[0]
+                elif lines[1].split() != [str(nv), str(nf), '0']:
+                    why = 'header is `%s`, expected `%d %d 0` (numbers of vertex and face records that follow)' % (lines[1], nv, nf)
+                else:
+                    why = first_diff('vertex', body[:nv], want_v) or first_diff('face', body[nv:], ['3 ' + x for x in want_f(0)])
+                    if why and 'face' in why:
+                        why += ' (0-based index of the vertex line of the same surface: local id + vertices of the earlier surfaces)'
+            else:
+                body = [l.strip() for l in lines if l.strip()]
+                want = ['solid Surface']
+                for s in range(3):
+                    for t, ids in enumerate(faces[s]):
+                        want.append('facet normal <n%d_%d_0> <n%d_%d_1> <n%d_%d_2>' % (s, t, s, t, s, t))
+                        want.append('outer loop')
+                        want += ['vertex <p%d_%d_0> <p%d_%d_1> <p%d_%d_2>' % (s, i, s, i, s, i) for i in ids]
+                        want += ['endloop', 'endfacet']
+                want.append('endsolid Surface')
+                why = first_diff('STL', body, want)
+            # every surface was asked to tessellate with the sample sizes of the container unless update_delta is switched off
+            if why is None:
+                for s, srf in enumerate(surfs):
+                    if (srf._a['sample_size_u'], srf._a['sample_size_v']) != (5, 5):
+                        why = 'surface %d is tessellated with sample sizes %r, the container has (5, 5) per direction' % (s, (srf._a['sample_size_u'], srf._a['sample_size_v']))
+                        break
+        except Violation as v:
+            why = '%s %s' % (v.msg, v.where())
+        except Unsupported as ex:
+            raise AnalysisError('%s: interpreter met an unsupported construct: %s' % (key, ex))
+        run.ob('MX2.mesh-text-parses-back', key, why is None, 'every vertex once in surface order; faces refer to the vertices of their own surface; counts declared' if why is None else why,
+               'geomdl/exchange.py:%d in exchange.%s' % (m.func('exchange.' + name).node.lineno, name))
